@@ -254,6 +254,36 @@ static std::vector<std::pair<std::string, bytes>> tag_variants(const bytes &want
 }
 
 void run_C08(Ctx &cx) {
+  if (cx.args.s("sub") == "large") {
+    // hashed span of 2^29 bytes and a little more: the inner hash input crosses the 2^32-bit length counter
+    for (int hm = 0; hm < 3; hm++)
+      for (uint64_t extra : {(uint64_t)0, (uint64_t)57}) {
+        if (!cx.thorough && extra && hm != (int)(cx.seed % 3)) continue;
+        if (!cx.take()) continue;
+        vh::Rng r = cx.case_rng();
+        uint8_t key[16];
+        r.fill(key, 16);
+        size_t n = ((size_t)1 << 29) - 64 + (size_t)extra;
+        bytes m(n);
+        for (size_t q = 0; q < n; q += 512) m[q] = (uint8_t)(q >> 9) ^ (uint8_t)r.s;
+        if (n) m[n - 1] = 0xA7;
+        vh::J j;
+        j.num("len", (long long)n).num("hmode", hm).str("key", vh::hex(key, 16));
+        cx.begin(j.done());
+        bytes got = real_hmac(hm, key, m, 0);
+        bytes want = ref::hmac(hm, key, 16, m.data(), n);
+        cx.rep.count("hmacs_compared");
+        cx.rep.count("large_spans");
+        if (got != want) {
+          vh::J d;
+          d.str("got", vh::hex(got)).str("want", vh::hex(want));
+          cx.rep.violation("C08|hmac-mismatch|large|span>=2^29-64", "gethmac differs from RFC 2104 HMAC for a span crossing the 2^32-bit counter", d.done());
+        } else
+          cx.rep.dist("class", vh::tuple_hash({777, hm, (long long)extra}));
+        cx.rep.sample(j.done());
+      }
+    return;
+  }
   const size_t nmax = cx.thorough ? 2100 : 600;
   // (1) message level
   for (size_t n = 0; n <= nmax; n++)
